@@ -203,8 +203,23 @@ def run(ctx):
             subsec = rng.random() < 0.5       # instants and bounds that do not fall on whole seconds
             inst = sorted(T0 + dt.timedelta(minutes=rng.randrange(0, 6 * 24 * 60), seconds=rng.randrange(60),
                                             microseconds=rng.choice([0, 1, 100000, 400000, 500000, 999999]) if subsec else 0) for _ in range(rng.randrange(1, 30)))
-            ids = build(fake, inst, prefix)
-            reader = fake.cassette('r', key_prefix=prefix, read_only=True)
+            layout = None
+            if it % 4 == 1:
+                # a deployment that names its day folders differently: a subclass overriding the documented class-level layout constant
+                from playback.tape_cassettes.s3.s3_tape_cassette import S3TapeCassette as _S3
+
+                class OwnDayFolders(_S3):
+                    DAY_FORMAT = '%Y-%m-%d' if it % 8 == 1 else 'd%d.%m.%Y'
+                layout = OwnDayFolders
+                ctx.count('stores_with_their_own_day_folder_names')
+            ids = build(fake, inst, prefix, writer=fake.cassette('w', key_prefix=prefix, read_only=False, cls=layout))
+            reader = fake.cassette('r', key_prefix=prefix, read_only=True, cls=layout)
+            if it % 4 == 3:
+                # the reading cassette object is a (shallow / deep) copy of the one that was configured
+                import copy as _copy
+                with fake.owner('r'):
+                    reader = _copy.copy(reader) if it % 8 == 3 else _copy.deepcopy(reader)
+                ctx.count('lookups_through_a_copied_cassette')
             for _ in range(40):
                 s = T0 + dt.timedelta(minutes=rng.randrange(-600, 7 * 24 * 60))
                 if rng.random() < 0.3 and inst:
